@@ -288,4 +288,96 @@ example : peSpec ["", "dns-query", "dev1"] = (["dns-query", "dev1"], none) := by
 example : (peSpec ["", "dns-query", "a", "b"]).2 ≠ none := by decide
 example : (peSpec ["", "other"]).2 = some "not a dns path" := by decide
 
+/-! ## TLS server name -/
+
+/-- `matchDomain`: the first configured domain of which the *lower-cased* name is an immediate
+subdomain (for every `strings.ToLower` and `netutil.IsImmediateSubdomain`), `""` if there is none. -/
+theorem matchDomain_eq (sub : String) (domains : List String) (lower : String → String) (imm : String → String → Bool) :
+    matchDomain sub domains lower imm = (domains.find? (imm (lower sub))).getD "" := by
+  unfold matchDomain goRange
+  suffices h : ∀ (i : Int), (match goRangeFrom (σ := Unit) (ρ := String) i domains () (fun _ _ domain =>
+      if imm (lower sub) domain = true then .ret domain else .next ()) with
+      | .inr r => r | .inl _ => "") = (domains.find? (imm (lower sub))).getD "" from h 0
+  induction domains with
+  | nil => intro i; simp [goRangeFrom]
+  | cons d t ih => intro i; cases hd : imm (lower sub) d <;> simp [goRangeFrom, hd, ih]
+
+/-- … which is the model's `matchDomain` when the two library functions are the model's. -/
+theorem matchDomain_tr (sub : String) (domains : List String) :
+    matchDomain sub domains (fun s => String.ofList (Agd.Device.lower s.toList))
+        (fun a b => Agd.Device.isImmediateSubdomain a.toList b.toList)
+      = ((Agd.Device.matchDomain sub.toList (domains.map String.toList)).map String.ofList).getD "" := by
+  rw [matchDomain_eq]
+  induction domains with
+  | nil => simp [Agd.Device.matchDomain]
+  | cons d t ih =>
+    cases hd : Agd.Device.isImmediateSubdomain (Agd.Device.lower sub.toList) d.toList <;>
+      simp_all [Agd.Device.matchDomain, List.find?]
+
+/-- `deviceDataFromCliSrvName`: no server name or no matching device domain ⇒ nothing; otherwise the
+text before the first dot of the name *as sent* (not the domain, not the lower-cased copy) is parsed. -/
+theorem cliSrvName_structure (f : S_devicefinder_Default) (sni : String) (md : String → List String → String)
+    (cut : String → String → String × String × Bool) (parse : String → DD) :
+    Default_deviceDataFromCliSrvName f sni md cut parse =
+      (if sni = "" ∨ md sni f.deviceDomains = "" then ("", none, none) else parse (cut sni ".").1) := by
+  unfold Default_deviceDataFromCliSrvName
+  by_cases h1 : sni = "" <;> by_cases h2 : md sni f.deviceDomains = "" <;> simp [h1, h2]
+
+/-! ## `parseDeviceData`, `parseExtHumanID` -/
+
+theorem isLikelyExtHumanID_iff (s : String) (count : String → String → Int) :
+    isLikelyExtHumanID s count = true ↔ count s "-" ≥ 2 := by
+  simp [isLikelyExtHumanID]
+
+/-- … the model's, when `strings.Count` counts characters. -/
+theorem isLikelyExtHumanID_tr (s : String) :
+    isLikelyExtHumanID s (fun s _ => (s.toList.count '-' : Int)) = Agd.Device.isLikelyExtHumanID s.toList := by
+  simp [isLikelyExtHumanID, Agd.Device.isLikelyExtHumanID]
+  omega
+
+/-- A string is either an extended human ID (parsed from the text as given, identifier empty) or a
+plain device ID (validated *after* lower-casing, no extended ID) — never both. -/
+theorem parseDeviceData_structure (f : S_devicefinder_Default) (s : String) (likely : String → Bool)
+    (ext : String → Option S_devicefinder_extHumanID × Option String) (lower : String → String)
+    (newID : String → String × Option String) :
+    Default_parseDeviceData f s likely ext lower newID =
+      (if likely s then ("", (ext s).1, (ext s).2) else ((newID (lower s)).1, none, (newID (lower s)).2)) ∧
+    ¬ ((Default_parseDeviceData f s likely ext lower newID).1 ≠ "" ∧
+       (Default_parseDeviceData f s likely ext lower newID).2.1 ≠ none) := by
+  unfold Default_parseDeviceData
+  cases likely s <;> simp
+
+/-- `parseExtHumanID` never panics (the three index reads are guarded by `len(parts) != 3`), for
+every input and every validator. -/
+theorem parseExtHumanID_no_panic (f : S_devicefinder_Default) (s : String) (dt : String → Int × Option String)
+    (lower : String → String) (pid hid : String → String × Option String) :
+    Default_parseExtHumanID f s dt lower pid hid ≠ none := by
+  unfold Default_parseExtHumanID
+  rcases h : goSplitN s "-" 3 with _ | ⟨a, _ | ⟨b, _ | ⟨c, _ | ⟨d, r⟩⟩⟩⟩ <;> simp [goIndex?] <;>
+    (repeat' split) <;> simp <;> omega
+
+/-- On `<type>-<profile>-<human>`: an error of any of the three validators yields no extended ID;
+otherwise the device type is that of the first part, the profile ID is validated after lower-casing
+the second, the human ID is the *normalised third part* (not lower-cased here). -/
+theorem parseExtHumanID_parts (f : S_devicefinder_Default) (s a b c : String) (dt : String → Int × Option String)
+    (lower : String → String) (pid hid : String → String × Option String) (h : goSplitN s "-" 3 = [a, b, c]) :
+    Default_parseExtHumanID f s dt lower pid hid = some (
+      if (dt a).2.isSome then (none, (dt a).2)
+      else if (pid (lower b)).2.isSome then (none, (pid (lower b)).2)
+      else if (hid c).2.isSome then (none, (hid c).2)
+      else (some ⟨(hid c).1, (pid (lower b)).1, (dt a).1⟩, none)) := by
+  unfold Default_parseExtHumanID
+  simp [h, goIndex?]
+  (repeat' split) <;> simp_all
+
+/-- Fewer than three parts: "not a valid ext human id". -/
+theorem parseExtHumanID_short (f : S_devicefinder_Default) (s : String) (dt : String → Int × Option String)
+    (lower : String → String) (pid hid : String → String × Option String) (h : (goSplitN s "-" 3).length ≠ 3) :
+    Default_parseExtHumanID f s dt lower pid hid = some (none, some "not a valid ext human id") := by
+  unfold Default_parseExtHumanID
+  have : ¬ (((goSplitN s "-" 3).length : Int) = 3) := by omega
+  simp [this]
+
+example : goSplitN "otr-prof1-My-Phone" "-" 3 = ["otr", "prof1", "My-Phone"] := by decide
+
 end Agd.Tie.TrC03
